@@ -32,6 +32,10 @@ type Commander struct {
 	lastTXID   *big.Int
 	referencer *Referencer
 	mu         sync.Mutex
+	// appendMu makes transaction id allocation, chaining and hand-off to the
+	// batcher one critical section, so that the log order, the transaction id
+	// order and the insertion order are the same.
+	appendMu sync.Mutex
 
 	lastLog *ledger.ChainedLog
 	monitor bus.Monitor
@@ -142,20 +146,21 @@ func (commander *Commander) exec(ctx context.Context, parameters Parameters, scr
 		}
 		verifhook.Yield(ctx, "exec.ran")
 
-		tx := ledger.NewTransaction().
-			WithPostings(result.Postings...).
-			WithMetadata(result.Metadata).
-			WithDate(script.Timestamp).
-			WithID(commander.nextTXID()).
-			WithReference(script.Reference)
+		chainedLog, done, err := executionContext.appendTransactionLog(ctx, func(txID *big.Int) *ledger.Log {
+			tx := ledger.NewTransaction().
+				WithPostings(result.Postings...).
+				WithMetadata(result.Metadata).
+				WithDate(script.Timestamp).
+				WithID(txID).
+				WithReference(script.Reference)
 
-		verifhook.Yield(ctx, "exec.txid")
-		log := logComputer(tx, result.AccountMetadata)
-		if parameters.IdempotencyKey != "" {
-			log = log.WithIdempotencyKey(parameters.IdempotencyKey)
-		}
-
-		chainedLog, done, err := executionContext.AppendLog(ctx, log)
+			verifhook.Yield(ctx, "exec.txid")
+			log := logComputer(tx, result.AccountMetadata)
+			if parameters.IdempotencyKey != "" {
+				log = log.WithIdempotencyKey(parameters.IdempotencyKey)
+			}
+			return log
+		})
 		if err != nil {
 			return nil, nil, err
 		}
